@@ -31,7 +31,7 @@ PROFILE = S.GENERAL.but(p_block=15, p_rerun=8, allow_empty=False, p_raise=35, p_
 
 
 def budget(tier):
-    return dict(examples=8000 if tier == 'quick' else 400000)
+    return dict(examples=8000 if tier == 'quick' else 200000)
 
 
 def strategy(tier):
